@@ -524,3 +524,11 @@ pub fn replay(sub: &str, case: &Value) -> Result<(), Fail> {
 
 #[allow(dead_code)]
 fn _unused(_: ErrorCode) {}
+
+pub fn fuzz_targets() -> Vec<crate::fuzz::Target> {
+    use crate::fuzz::from_strategy;
+    vec![
+        from_strategy("c07_paths", "C07", "paths", path_case, check_paths),
+        from_strategy("c07_mounts", "C07", "mounts", mount_case, check_mounts),
+    ]
+}
